@@ -280,7 +280,7 @@ impl Property for C06 {
     }
     fn cases(&self, tier: Tier) -> usize {
         match tier {
-            Tier::Quick => 320,
+            Tier::Quick => 800,
             Tier::Thorough => 3200,
         }
     }
